@@ -102,6 +102,21 @@ func c03Variants() []c03Case {
 	add("receipt/dest-happy-rule/proof-absent", preReqToB, func(pw *preWorld) (pb.Transaction, bool, bool) {
 		return c03IBTP(fix.KB, rcB, nil, nil)(pw), false, true
 	})
+	// the destination appchain is logged out (its rules are cleared) after the request was
+	// accepted: its receipt can no longer be verified
+	logoutDest := func(pre func(pw *preWorld), k crypto.PrivateKey, chain string) func(pw *preWorld) {
+		return func(pw *preWorld) {
+			pre(pw)
+			res := pw.w.Must(pw.w.Block(pw.w.InvokeTx(k, constant.AppchainMgrContractAddr, "LogoutAppchain", pb.String(chain), pb.String("r"))))
+			pw.w.Approve(fix.ProposalID(res.Receipts[0]))
+		}
+	}
+	add("receipt/dest-logged-out/built-in-rule", logoutDest(preReqToB, fix.KB, fix.ChainB), func(pw *preWorld) (pb.Transaction, bool, bool) {
+		return c03IBTP(fix.KB, rcB, sha(good), good)(pw), false, true
+	})
+	add("receipt/dest-logged-out/deployed-rule", logoutDest(preReqToW, fix.KW, fix.ChainW), func(pw *preWorld) (pb.Transaction, bool, bool) {
+		return c03IBTP(fix.KW, rcW, sha(good), good)(pw), false, true
+	})
 	// master rule update of chain W (WASM true/false rule -> accept-all rule), rejected or
 	// approved, after a request to W was accepted: the receipt is verified against the
 	// rule that is master AFTER the proposal concluded
